@@ -43,6 +43,9 @@ def jobs(tier):
 
 def main(tier):
     js = jobs(tier)
+    for (lab, kind, p_) in alpha.interaction_programs(tier):
+        if kind in ("task", "task0"):
+            js.append({"program": p_, "families": ["task", "resource", "constraint"], "family": "interaction:" + lab.split("/")[2]})
     for j in js:
         # "binds only when the tasks concerned are scheduled": also the converse direction on every program
         j["directions"] = "SK"
